@@ -431,7 +431,17 @@ def r6_strip_details_bounds(ctx):
             continue
         facts = graph.guard_facts(dom, d.node)
         src_names = {x.id for x in ast.walk(d.value) if isinstance(x, ast.Name)}
-        guarded = any(isinstance(fa.expr, ast.Compare) and isinstance(fa.expr.left, ast.Name) and fa.expr.left.id in src_names and isinstance(fa.expr.ops[0], (ast.GtE, ast.Gt, ast.NotEq)) and fa.polarity is True for fa in facts)
+        def found_test(fa):
+            e = fa.expr
+            if not (isinstance(e, ast.Compare) and isinstance(e.left, ast.Name) and e.left.id in src_names and len(e.ops) == 1 and isinstance(e.comparators[0], (ast.Constant, ast.UnaryOp))):
+                return False
+            c0 = e.comparators[0]
+            cv = c0.value if isinstance(c0, ast.Constant) else (-c0.operand.value if isinstance(c0.op, ast.USub) and isinstance(c0.operand, ast.Constant) else None)
+            op = type(e.ops[0])
+            # "found" <=> position >= 0: position 0 is a hit
+            return fa.polarity is True and ((op is ast.GtE and cv == 0) or (op is ast.Gt and cv == -1) or (op is ast.NotEq and cv == -1))
+        guarded = any(found_test(fa) for fa in facts)
+        loose = any(isinstance(fa.expr, ast.Compare) and isinstance(fa.expr.left, ast.Name) and fa.expr.left.id in src_names and isinstance(fa.expr.ops[0], (ast.GtE, ast.Gt, ast.NotEq)) and fa.polarity is True for fa in facts)
         if d.name == end:
             shape = isinstance(d.value, ast.Name)
             what = 'end = position found'
@@ -440,7 +450,8 @@ def r6_strip_details_bounds(ctx):
             what = 'start = position of the dot + 1'
         rep.ob('C03.R6', ctx.loc(f, d.node.ast), ctx.src(d.node.ast), guarded and shape,
                '%s, only when the search succeeded' % what if guarded and shape else
-               ('the window is narrowed although the search may have failed (-1)' if not guarded else 'unexpected window update (%s expected)' % what), anchor=q)
+               (('the success test of the search treats position 0 as "not found": a message that starts with the searched character keeps it' if loose else
+                 'the window is narrowed although the search may have failed (-1)') if not guarded else 'unexpected window update (%s expected)' % what), anchor=q)
 
 
 def _last_dot_confined(ctx, f, g, rd, q, msg):
@@ -571,6 +582,7 @@ from ..selftest import fire, silent      # noqa: E402
 DE = 'xdoctest/doctest_example.py'
 CK = 'xdoctest/checker.py'
 VARIANTS = [
+    fire('position-zero-counts-as-not-found', 'C03.R6', (CK, "    i = msg.find(':', 0, end)\n    if i >= 0:\n", "    i = msg.find(':', 0, end)\n    if i > 0:\n")),
     fire('stripped-texts-never-compared', 'C03.R3', (CK, "        flag = check_output(exc_got1, exc_want1, runstate)\n", "        pass\n")),
     fire('colon-position-never-narrows-the-window', 'C03.R6', (CK, "    i = msg.find(':', 0, end)\n    if i >= 0:\n        end = i\n", "    i = msg.find(':', 0, end)\n    if i >= 0:\n        pass\n")),
     fire('dot-position-never-moves-the-start', 'C03.R6', (CK, "        start = i + 1\n", "        pass\n")),
